@@ -354,11 +354,20 @@ func runC18(c *core.Ctx) {
 					continue
 				}
 				if len(st) == 0 {
-					// no store: allowed only where the path does not point to the removed node
+					// no store: allowed only where the path does not point to the removed node - which the pass must
+					// have found out
+					tested := false
 					for _, b := range p.Events(ir.KBranch) {
-						if b.Atom.Op == "bin" && b.Atom.Aux == "==" && node != nil && (ir.Same(b.Atom.Args[0], node) || ir.Same(b.Atom.Args[1], node)) && b.Pol {
-							okU, whyU = false, "a level on which the path points to the removed node is not unlinked: the node stays reachable on that level"
+						if b.Atom.Op == "bin" && b.Atom.Aux == "==" && node != nil && (ir.Same(b.Atom.Args[0], node) || ir.Same(b.Atom.Args[1], node)) {
+							if b.Pol {
+								okU, whyU = false, "a level on which the path points to the removed node is not unlinked: the node stays reachable on that level"
+							} else {
+								tested = true
+							}
 						}
+					}
+					if !tested && okU {
+						okU, whyU = false, "a pass over a level neither unlinks nor finds that the path does not point to the removed node there: the node stays reachable"
 					}
 					continue
 				}
